@@ -542,7 +542,13 @@ func (w *World) replayGo(fr *FuncResult, body string) ReplayResult {
 		return rr
 	}
 	var b strings.Builder
-	fmt.Fprintf(&b, "package %s\n\nimport (\n\t\"bytes\"\n\t\"fmt\"\n\t\"strings\"\n\t\"testing\"\n)\n\nvar _ = bytes.Contains\nvar _ = strings.Contains\n\n", fn.Pkg.Pkg.Name())
+	extra := ""
+	if fr.Con != nil {
+		for _, imp := range fr.Con.ReplayImports {
+			extra += "\t\"" + imp + "\"\n"
+		}
+	}
+	fmt.Fprintf(&b, "package %s\n\nimport (\n\t\"bytes\"\n\t\"fmt\"\n\t\"strings\"\n\t\"testing\"\n%s)\n\nvar _ = bytes.Contains\nvar _ = strings.Contains\n\n", fn.Pkg.Pkg.Name(), extra)
 	b.WriteString("func TestVcgoReplay(t *testing.T) {\n\tdefer func() {\n\t\tif r := recover(); r != nil {\n\t\t\tfmt.Printf(\"VCGO-PANIC %v\\n\", r)\n\t\t}\n\t}()\n")
 	b.WriteString("\t" + body + "\n}\n")
 	src := b.String()
